@@ -1,0 +1,30 @@
+//go:build verif
+
+package font
+
+import "github.com/go-text/typesetting/font/opentype/tables"
+
+// Verification hooks for property C09 (add-only, compiled only with the build tag `verif`).
+
+// VerifCmap4Entry is one segment built by newCmap4.
+type VerifCmap4Entry struct {
+	End, Start, Delta uint16
+	HasIndexes        bool
+	Indexes           []uint16
+}
+
+// VerifNewCmap4 runs newCmap4 and exposes the segments it built.
+func VerifNewCmap4(cm tables.CmapSubtable4) ([]VerifCmap4Entry, error) {
+	c, err := newCmap4(cm)
+	if err != nil {
+		return nil, err
+	}
+	out := make([]VerifCmap4Entry, len(c))
+	for i, e := range c {
+		out[i] = VerifCmap4Entry{End: e.end, Start: e.start, Delta: e.delta, HasIndexes: e.indexes != nil}
+		for _, g := range e.indexes {
+			out[i].Indexes = append(out[i].Indexes, uint16(g))
+		}
+	}
+	return out, nil
+}
